@@ -7,6 +7,7 @@ import EtkVerif.Driver.CfgCmd
 import EtkVerif.Driver.AsmCmd
 import EtkVerif.Driver.FsCmd
 import EtkVerif.Driver.LstCmd
+import EtkVerif.Driver.LayCmd
 open EtkVerif.Driver
 
 def dispatch (line : String) : String :=
@@ -24,6 +25,7 @@ def dispatch (line : String) : String :=
     else if cmd == "asmspec" then cmdAsmSpec args
     else if cmd == "asmfs" then cmdAsmFs args
     else if cmd == "lst" then cmdLst args
+    else if cmd == "lay" then cmdLay args
     else s!"bad-op {cmd}"
   | [] => "bad-op"
 
